@@ -22,15 +22,25 @@ Theorem C10_undefined_macro_is_error :
               e_file e = 0%N /\ e_index e = pos.
 Proof. exact undefined_macro_is_error. Qed.
 
-(* FULL STATEMENT (false of the current code): a macro that reaches itself through any chain
-   of PASTEs is rejected.  Refuted (finding F3): two macros pasting each other pass the
-   recursion check and the expansion never ends — it exhausts every amount of fuel (in Go:
-   fatal stack overflow, the process dies). *)
-Theorem C10_refuted_cycle_of_length_two :
-  check_recursion 10 cyc_macros = [] /\
-  forall echeck fuel xs, expand_dir echeck cyc_macros fuel xs (mk_paste (str "@a") 55) = CFuel.
-Proof. exact cycle_of_length_two_refuted. Qed.
+(* when the recursion check passes, no PASTE inside any macro names that macro itself or a
+   macro that leads back to it through any chain of other macros *)
+Theorem C10_recursion_check_sound :
+  forall depth ms,
+    check_recursion depth ms = None ->
+    forall name m, In (name, m) ms ->
+    forall p, In p (macro_pastes depth m) ->
+      named p KName <> [] /\ named p KName <> name /\
+      reaches (S (List.length ms)) depth ms (named p KName) name = false.
+Proof. exact recursion_check_sound. Qed.
+
+(* cycles through two and three macros are rejected at the PASTE that starts the chain
+   (finding F3 — stack overflow — is fixed in /repo; this is its regression theorem) *)
+Theorem C10_longer_cycles_are_rejected :
+  is_recursion_error_at (check_recursion 10 cyc2) 22 = true /\
+  is_recursion_error_at (check_recursion 10 cyc3) 22 = true.
+Proof. exact longer_cycles_are_rejected. Qed.
 
 Print Assumptions C10_macros_are_removed.
 Print Assumptions C10_undefined_macro_is_error.
-Print Assumptions C10_refuted_cycle_of_length_two.
+Print Assumptions C10_recursion_check_sound.
+Print Assumptions C10_longer_cycles_are_rejected.
